@@ -197,6 +197,29 @@ def main_c18(run):
     for t, (st, val) in real.items():
         if st.startswith("other"):
             run.violation("text:" + t, f"reading {t!r} raised {st[6:]}: {val}", {"text": t})
+    # characters outside the specification's alphabet (control characters, NUL, separators, a byte-order mark, a
+    # lone surrogate, the last code point): inserted anywhere in an enumerated text, the outcome is still a
+    # reading or one of the reader's two errors
+    odd = ["\x00", "\x1b", "\x7f", "\x85", "\u2028", "\ufeff", "\ud800", "\U0010ffff", "\x0c", "\x0b", "\u00a0", "\u3000"]
+    base = sorted(real)
+    rng.shuffle(base)
+    nodd = 0
+    for t in base[: (1500 if q else 30000)]:
+        k = rng.randint(0, len(t))
+        t2 = t[:k] + rng.choice(odd) + t[k:]
+        st, val = real_outcome(t2)
+        nodd += 1
+        run.case(t2)
+        if st.startswith("other"):
+            run.violation("text:" + repr(t2), f"reading {t2!r} raised {st[6:]}: {val}", {"text": t2})
+    for c in odd:
+        for t2 in (c, c * 2, "(" + c, '"' + c + '"', "#[[" + c + "]]", 'f"{' + c + '}"', ";" + c + "\n1", "a" + c + "b", "#" + c):
+            st, val = real_outcome(t2)
+            nodd += 1
+            run.case(t2)
+            if st.startswith("other"):
+                run.violation("text:" + repr(t2), f"reading {t2!r} raised {st[6:]}: {val}", {"text": t2})
+    run.cov["texts_with_odd_characters"] = nodd
     # string-like literals: every body <= 3 (4) characters over escape-relevant characters, for each prefix
     lit_alpha = ["\"", "\\", "x", "a", "0", "N", "{", "}", "u", "\n"]
     for pre in ("", "b", "r", "f", "br"):
